@@ -110,7 +110,9 @@ func (fl *Flaky) active(kind string) bool { return fl != nil && fl.K > 0 && CanR
 // Case is two value sequences, the kind of source each is served from, a selector and a call program:
 // one letter per call, h = HasNext, n = Next, r = Reset, i = Init again on the same Mixer value with fresh
 // iterators (same kinds) over the other pair of inputs: the first i switches to (A2,B2), the next one back
-// to (A,B) and so on. After the program the mixer is drained with Next.
+// to (A,B) and so on. The letter r may be followed by a decimal repeat count: "r256" is a RUN of 256 consecutive
+// Reset calls (so that programs with hundreds or tens of thousands of Resets in a row stay short).
+// After the program the mixer is drained with Next.
 type Case struct {
 	A    []int  `json:"a"`
 	B    []int  `json:"b"`
@@ -131,8 +133,79 @@ type Case struct {
 	FB *Flaky `json:"flaky_b,omitempty"`
 }
 
+// call is one token of a program: the letter, its repeat count (1 unless the letter is an r followed by digits) and the
+// position of the letter in the program text.
+type call struct {
+	ch  byte
+	n   int
+	pos int
+}
+
+// MaxRun bounds the repeat count of a Reset run.
+const MaxRun = 1 << 17
+
+// parseProg splits a program into its calls. Only r takes a repeat count.
+func parseProg(prog string) []call {
+	out := make([]call, 0, len(prog))
+	for p := 0; p < len(prog); p++ {
+		tk := call{ch: prog[p], n: 1, pos: p}
+		if q := p + 1; q < len(prog) && prog[q] >= '0' && prog[q] <= '9' {
+			if tk.ch != 'r' {
+				panic("only r takes a repeat count: " + prog)
+			}
+			tk.n = 0
+			for ; q < len(prog) && prog[q] >= '0' && prog[q] <= '9'; q++ {
+				tk.n = tk.n*10 + int(prog[q]-'0')
+				if tk.n > MaxRun {
+					panic("repeat count too large: " + prog)
+				}
+			}
+			p = q - 1
+		}
+		out = append(out, tk)
+	}
+	return out
+}
+
+// RunLengths are the lengths Reset runs are drawn from: short ones, and the neighbourhoods of the points at which a
+// narrow pass counter (8 or 16 bits wide) would come round again.
+var RunLengths = []int{1, 2, 3, 4, 255, 256, 257, 511, 512, 513, 1024, 65535, 65536, 65537}
+
+var runLengthNames = func() []string {
+	var out []string
+	for _, l := range RunLengths {
+		if l > 4 {
+			out = append(out, fmt.Sprintf("%d", l))
+		}
+	}
+	return out
+}()
+
+// runClass names a number of consecutive successful Reset calls for the histogram.
+func runClass(n int) string {
+	switch {
+	case n <= 1:
+		return ""
+	case n <= 4:
+		return "2-4"
+	}
+	for _, l := range RunLengths {
+		if n == l {
+			return fmt.Sprintf("%d", n)
+		}
+	}
+	return "other_ge_5"
+}
+
 // Info is what the classifier needs.
 type Info struct {
+	// Reset runs: ConsecResets lists (as classes) the numbers of successful Reset calls made in a row, with no
+	// HasNext/Next between them, that were followed by a HasNext/Next (program or final drain)
+	ConsecResets     map[string]bool
+	ConsecLook       bool // >= 2 such Resets began on a loaded look-ahead (after a HasNext that said true, or in the middle of the merge)
+	ConsecMult256    bool // their number was a multiple of 256
+	ConsecMult256Look bool // ... and they began on a loaded look-ahead
+
 	Tie          bool // the selector decided between two heads of equal value
 	OneEmpty     bool // exactly one input is empty
 	BothEmpty    bool
@@ -531,12 +604,34 @@ func run(c Case, info *Info) *vstat.Violation {
 		return nil
 	}
 
-	for p := 0; p < len(c.Prog); p++ {
-		wheref := func() string { return fmt.Sprintf("call #%d %c of %q", p, c.Prog[p], c.Prog) }
+	// consecutive successful Resets (classification): how many in a row, and whether the first of them met a look-ahead
+	consec, consecLook := 0, false
+	endConsec := func() {
+		if k := runClass(consec); k != "" {
+			if info.ConsecResets == nil {
+				info.ConsecResets = map[string]bool{}
+			}
+			info.ConsecResets[k] = true
+			info.ConsecLook = info.ConsecLook || consecLook
+			if consec%256 == 0 {
+				info.ConsecMult256 = true
+				info.ConsecMult256Look = info.ConsecMult256Look || consecLook
+			}
+		}
+		consec, consecLook = 0, false
+	}
+	for _, tk := range parseProg(c.Prog) {
+		p, rep := tk.pos, 0
+		wheref := func() string {
+			if tk.n > 1 {
+				return fmt.Sprintf("call #%d %c (Reset %d of a run of %d) of %q", p, tk.ch, rep+1, tk.n, c.Prog)
+			}
+			return fmt.Sprintf("call #%d %c of %q", p, tk.ch, c.Prog)
+		}
 		where := lazyStr(wheref)
-		if limbo && c.Prog[p] != 'r' && c.Prog[p] != 'i' {
+		if limbo && tk.ch != 'r' && tk.ch != 'i' {
 			// between a failed Reset and the next accepted one: the call is made, nothing is judged
-			if c.Prog[p] == 'h' {
+			if tk.ch == 'h' {
 				m.HasNext()
 			} else {
 				m.Next()
@@ -545,7 +640,12 @@ func run(c Case, info *Info) *vstat.Violation {
 			info.LimboCalls++
 			continue
 		}
-		switch c.Prog[p] {
+		if tk.ch == 'i' {
+			consec, consecLook = 0, false // not followed by a read: the sources are replaced
+		} else if tk.ch != 'r' {
+			endConsec()
+		}
+		switch tk.ch {
 		case 'h':
 			got := m.HasNext()
 			if selViol != nil {
@@ -581,52 +681,59 @@ func run(c Case, info *Info) *vstat.Violation {
 			}
 			lastH, hRun = nil, 0
 		case 'r':
-			transient := resettable && pending()
-			err := m.Reset()
-			if selViol != nil {
-				return vstat.V(selViol.Sig, "%s: during Reset: %s", where, selViol.Msg)
-			}
-			if transient {
-				// a source had a failure to deliver: neither the result nor the state of the mixer is judged
-				info.ResetTransient = true
-				limbo, limboCalls = true, 0
-				lastH, hRun = nil, 0
-				break
-			}
-			if !resettable {
-				info.ResetRefused = true
-				if err == nil {
-					return vstat.V("mixer:reset-no-error", "%s: Reset returned nil although a source (%s,%s) cannot be reset", where, c.KA, c.KB)
+			for rep = 0; rep < tk.n; rep++ {
+				transient := resettable && pending()
+				err := m.Reset()
+				if selViol != nil {
+					return vstat.V(selViol.Sig, "%s: during Reset: %s", where, selViol.Msg)
 				}
-				// the documentation says nothing about the mixer's state after a refused Reset: stop here
-				return nil
-			}
-			if err != nil {
-				return vstat.V("mixer:reset-failed", "%s: Reset returned %v although both sources can be reset%s", where, err, flakyNote(fa, fb))
-			}
-			if limbo {
-				info.ResetRecovered = true
-				if limboCalls > 0 {
-					info.RecoveredAfterRead = true
+				if transient {
+					// a source had a failure to deliver: neither the result nor the state of the mixer is judged
+					info.ResetTransient = true
+					limbo, limboCalls = true, 0
+					lastH, hRun = nil, 0
+					consec, consecLook = 0, false
+					continue
 				}
-				limbo = false
-				sawEnd, lastH, sinceReset = false, nil, 0 // what was seen before belongs to the abandoned merge
+				if !resettable {
+					info.ResetRefused = true
+					if err == nil {
+						return vstat.V("mixer:reset-no-error", "%s: Reset returned nil although a source (%s,%s) cannot be reset", where, c.KA, c.KB)
+					}
+					// the documentation says nothing about the mixer's state after a refused Reset: stop here
+					return nil
+				}
+				if err != nil {
+					return vstat.V("mixer:reset-failed", "%s: Reset returned %v although both sources can be reset%s", where, err, flakyNote(fa, fb))
+				}
+				if limbo {
+					info.ResetRecovered = true
+					if limboCalls > 0 {
+						info.RecoveredAfterRead = true
+					}
+					limbo = false
+					sawEnd, lastH, sinceReset = false, nil, 0 // what was seen before belongs to the abandoned merge
+				}
+				info.ResetOK = true
+				switch {
+				case sawEnd:
+					info.ResetAtEnd = true
+				case lastH != nil:
+					info.ResetLook = true
+				}
+				if sinceReset > 0 && !sawEnd {
+					info.ResetMid = true
+				}
+				if a == nil || b == nil {
+					info.ResetNil = true
+				}
+				if consec == 0 {
+					consecLook = (lastH != nil && *lastH) || (sinceReset > 0 && !sawEnd)
+				}
+				consec++
+				i, j = 0, 0
+				lastH, hRun, sawEnd, sinceReset = nil, 0, false, 0
 			}
-			info.ResetOK = true
-			switch {
-			case sawEnd:
-				info.ResetAtEnd = true
-			case lastH != nil:
-				info.ResetLook = true
-			}
-			if sinceReset > 0 && !sawEnd {
-				info.ResetMid = true
-			}
-			if a == nil || b == nil {
-				info.ResetNil = true
-			}
-			i, j = 0, 0
-			lastH, hRun, sawEnd, sinceReset = nil, 0, false, 0
 		case 'i':
 			info.ReInit = true
 			if (lastH != nil && *lastH) || (sinceReset > 0 && !sawEnd) {
@@ -645,7 +752,7 @@ func run(c Case, info *Info) *vstat.Violation {
 			}
 			lastH, hRun, sawEnd, sinceReset = nil, 0, false, 0
 		default:
-			panic("bad call " + string(c.Prog[p]))
+			panic("bad call " + string(tk.ch))
 		}
 	}
 
@@ -672,6 +779,7 @@ func run(c Case, info *Info) *vstat.Violation {
 		return nil // the mixer never passed the pending failures on: no Reset that both sources accepted, nothing to judge
 	}
 	// final drain: the rest of the merge comes out, then the mixer stays exhausted
+	endConsec()
 	lastH = nil
 	for k := 0; k <= len(a)+len(b)+1; k++ {
 		_, more, _ := peek()
@@ -840,6 +948,12 @@ func (i Info) Classes() []string {
 	add(i.SameValueKind, "both_inputs_same_value_type")
 	add(i.SameValueKind && i.ResetOK, "both_inputs_same_value_type_and_reset_ok")
 	add(i.SameValueKind && i.ResetRefused, "both_inputs_same_value_type_and_reset_refused")
+	for _, l := range append([]string{"2-4", "other_ge_5"}, runLengthNames...) {
+		add(i.ConsecResets[l], "consecutive_successful_resets_then_read:"+l)
+	}
+	add(i.ConsecLook, "consecutive_successful_resets_begun_on_loaded_lookahead")
+	add(i.ConsecMult256, "consecutive_successful_resets_multiple_of_256")
+	add(i.ConsecMult256Look, "consecutive_successful_resets_multiple_of_256_begun_on_loaded_lookahead")
 	add(i.FlakyA && !i.FlakyB, "source_reset_fails_transiently:input_1")
 	add(!i.FlakyA && i.FlakyB, "source_reset_fails_transiently:input_2")
 	add(i.FlakyA && i.FlakyB, "source_reset_fails_transiently:both_inputs")
